@@ -9,9 +9,14 @@ mod plan;
 mod probes;
 mod props;
 mod run;
+mod tplural;
 
 fn main() {
     let prop = std::env::args().nth(1).unwrap_or_default();
+    let part = std::env::args().nth(2).unwrap_or_default();
     let ctx = vcommon::ctx::Ctx::from_env(&prop);
+    if prop == "C05" && part == "tplural" {
+        tplural::run(ctx)
+    }
     props::dispatch(&prop, ctx)
 }
